@@ -58,17 +58,25 @@ impl C01 {
     fn run_big(&self, t: &mut Tape, regime: Regime, cfg: &FuncCfg, ctx: &mut Ctx) -> PResult {
         ctx.label("mode=big");
         let variant = t.choice(3) as u8; // 0 linear, 1 quadratic, 2 polynomial
-        let n = 20 + t.choice(61);
+        // 20..80 terms with tape-chosen coefficients, or a size around a power of two (up to 300) with coefficients
+        // derived from one seed byte
+        let derived = t.p(100);
+        let n = if derived { *t.pick(&SIZES) } else { 20 + t.choice(61) };
+        let seed = t.byte() as u64;
         let base = *t.pick(&[0u64, 1, 1000]);
         let mut terms: Vec<(Vec<u64>, f64)> = Vec::new();
         let c0 = gen_coeff(t, regime, false);
         if !t.p(40) {
             terms.push((vec![], c0));
         }
+        if derived {
+            ctx.label("mode=big-derived");
+        }
         for i in 0..n {
-            let c = gen_coeff(t, regime, false);
-            let other = base + t.choice(n) as u64;
-            let m = match (variant, t.choice(4)) {
+            let c = if derived { derived_coeff(seed, i as u64) } else { gen_coeff(t, regime, false) };
+            let other = base + if derived { (derived_coeff(seed ^ 77, i as u64).abs() * 16.0) as u64 % n as u64 } else { t.choice(n) as u64 };
+            let shape = if derived { (derived_coeff(seed ^ 99, i as u64).abs() * 16.0) as usize % 4 } else { t.choice(4) };
+            let m = match (variant, shape) {
                 (0, _) | (_, 0) | (_, 1) => vec![base + i as u64],
                 (1, _) | (_, 2) => vec![base + i as u64, other],
                 _ => vec![other, base + i as u64, other],
@@ -79,9 +87,21 @@ impl C01 {
             ctx.label("terms>32");
         }
         let fcfg = FuncCfg { force_variant: variant + 2, ..cfg.clone() };
+        if terms.len() >= 256 {
+            ctx.label("terms>=256");
+        }
         let f = render(t, &terms, &fcfg, ctx);
         let used = syntactic_ids(&f);
-        let state = gen_state(t, used.iter().copied(), regime);
+        let state = if derived {
+            // exactly the used ids (a packed state when the ids are 0..n or 1..=n)
+            let mut st = v1::State::default();
+            for id in &used {
+                st.entries.insert(*id, derived_value(seed, *id));
+            }
+            st
+        } else {
+            gen_state(t, used.iter().copied(), regime)
+        };
         ctx.fp_msg(&f);
         ctx.fp_state(&state);
         ctx.fp(&[9]);
@@ -123,7 +143,7 @@ impl Property for C01 {
         "C01"
     }
     fn rule(&self) -> &'static str {
-        "case = function message (any oneof state, any wire-legal representation, <=8 raw terms, degree<=4, ids incl. 0 and u64::MAX; about 5% of the cases: 20..80 raw terms over as many ids) x state; \
+        "case = function message (any oneof state, any wire-legal representation, <=8 raw terms, degree<=4, ids incl. 0 and u64::MAX; about 5% of the cases: 20..80 raw terms over as many ids, or 9..300 terms (sizes around the powers of two) over ids 0..n / 1..=n / 1000.. with a packed state) x state; \
          oracle = exact rational value of the raw message fields; non-trivial = >=2 raw terms and (un-normalised representation or missing-variable case or multi-sample case); \
          distinct = sha256 of (encoded message, state, mode)"
     }
@@ -146,7 +166,9 @@ impl Property for C01 {
             "compare=bit-exact",
             "compare=rounding-bound",
             "mode=big",
+            "mode=big-derived",
             "terms>32",
+            "terms>=256",
         ]
         .iter()
         .map(|s| s.to_string())
